@@ -288,6 +288,10 @@ class RepoInterp:
                 return st.alloc("list", [K(x) for x in fval.v.split(*[a.v for a in args])])
             except Exception:
                 return None
+        if self.construct_instances and isinstance(call.func, ast.Name) and not isinstance(fval, (R, Ref)):
+            ci_new = self.repo.resolve_class(self.cur_fi.module, call.func.id)
+            if ci_new is not None and self.repo.method(ci_new, "__init__") is None:
+                return st.alloc("obj", {"__class__": K(ci_new.fq)})  # no __init__ in the package: a bare instance
         if self.construct_instances and isinstance(call.func, (ast.Name, ast.Attribute)):
             callee0 = self.resolve(call, fval)
             if callee0 is not None and callee0.cls is not None and callee0.qualname.endswith(".__init__") and not isinstance(fval, (R, Ref)) \
